@@ -246,18 +246,27 @@ Theorem c01_pending_ends_client : forall c s n pos pep,
              ch s' = NoCh /\ hub s' = false /\ pending s' = n.
 Proof.
   intros c s n pos pep Hv Hp Hu Hd Hc Hch.
-  unfold run, step, up_idle, dl_idle, is_server, emit; unf.
-  repeat (rewrite ?Hu, ?Hp, ?Hv, ?Hch, ?Hd, ?Hc; cbn).
-  eexists. split; [reflexivity|]. cbn. auto.
+  set (s1 := set_up (set_ch (set_cw (set_pending s n) []) NoCh (g_pos s)) (UHub UInsuff)).
+  assert (S1 : step c s (LUnsub UInsuff) = Some s1).
+  { unfold step, up_idle, is_server. rewrite Hu, Hp, Hv, Hch. reflexivity. }
+  set (s2 := set_up (set_hub s1 false) (UOut UInsuff)).
+  assert (S2 : step c s1 LUnsubHub = Some s2).
+  { unfold step, dl_idle. change (up s1) with (UHub UInsuff). change (dl s1) with (dl s). rewrite Hd. reflexivity. }
+  set (s3 := set_up (emit s2 (unsub_out_frame UInsuff)) UIdle).
+  assert (S3 : step c s2 LUnsubOut = Some s3).
+  { unfold step. change (up s2) with (UOut UInsuff). reflexivity. }
+  exists s3. cbn [run]. rewrite S1, S2, S3. split; [reflexivity|].
+  unfold s3. rewrite emit_eq. change (closed s2) with (closed s). rewrite Hc.
+  cbn. auto.
 Qed.
 
 (* Server-side subscription: it closes the connection with the insufficient-state code. *)
 Theorem c01_pending_ends_server : forall c s n,
-  c_var c = VServer -> pending s = S n -> closed s = false ->
+  c_var c = VServer -> pending s = S n -> closed s = false -> cw s = [] ->
   exists s', step c s LAsyncDisc = Some s' /\
              log s' = log s ++ [FDisconnect code_disc_insufficient] /\ closed s' = true.
 Proof.
-  intros c s n Hv Hp Hc. unfold step, is_server, emit; unf.
-  repeat (rewrite ?Hp, ?Hv, ?Hc; cbn).
+  intros c s n Hv Hp Hc Hcw. unfold step, is_server. rewrite Hp, Hv, Hc, Hcw. cbn [negb app emits].
+  rewrite emit_eq. change (closed (set_pending s n)) with (closed s). rewrite Hc.
   eexists. split; [reflexivity|]. cbn. auto.
 Qed.
